@@ -1198,3 +1198,77 @@ func c02R19(c *Ctx, r *Report) {
 	r.Check(good, rule, fn.Name(), "a float is negated by a product with -1", c.pos(clause.Pos()),
 		"the negation of a float is emitted as `0 - x`: for x == 0.0 that is +0.0, so `1.0 / -z` prints inf natively and -inf on wasm (f64.neg)")
 }
+
+// ---- C18.R17: an element that already is the expected optional is not wrapped again --------------------------------
+
+func init() {
+	lateInits = append(lateInits, func() {
+		props["C18"].Quick = append(props["C18"].Quick, c18R17)
+		props["C18"].Explanation += " (R17) hir/lower wrapOptional returns an index expression whose type already is the expected optional as it is, before the branch that builds an OptionalSome: the element of a fixed array of optionals keeps its payload and its flag."
+	})
+}
+
+func c18R17(c *Ctx, r *Report) {
+	const rule = "C18.R17"
+	r.Describe(rule, "hir/lower.wrapOptional: before the first hir.OptionalSome literal an if statement whose condition tests the expression for *hir.IndexExpr and its type for equality with the expected type returns the expression unchanged")
+	fn := c.LookupFn("internal/hir/lower", "(*Lowerer).wrapOptional")
+	if !r.Anchor(rule, fn != nil && fn.Decl.Body != nil, "hir/lower.(*Lowerer).wrapOptional") {
+		return
+	}
+	info := fn.Info()
+	expr, expected := fn.ParamNamed("expr"), fn.ParamNamed("expected")
+	if !r.Anchor(rule, expr != nil && expected != nil, "wrapOptional(expr, expected)") {
+		return
+	}
+	var somePos token.Pos
+	ast.Inspect(fn.Decl.Body, func(x ast.Node) bool {
+		if cl, ok := x.(*ast.CompositeLit); ok && somePos == token.NoPos && isNamed(info.TypeOf(cl), Mod+"/internal/hir", "OptionalSome") {
+			somePos = cl.Pos()
+		}
+		return true
+	})
+	if !r.Anchor(rule, somePos != token.NoPos, "wrapOptional: hir.OptionalSome literal") {
+		return
+	}
+	good := false
+	for _, st := range fn.Decl.Body.List {
+		ifs, ok := st.(*ast.IfStmt)
+		if !ok || ifs.Pos() > somePos || !thenTerminates(ifs) {
+			continue
+		}
+		isIndex, sameType := false, false
+		check := func(n ast.Node) {
+			ast.Inspect(n, func(y ast.Node) bool {
+				switch z := y.(type) {
+				case *ast.TypeAssertExpr:
+					if z.Type != nil {
+						if nt := namedOf(info.TypeOf(z.Type)); nt != nil && nt.Obj().Name() == "IndexExpr" && objOf(info, z.X) == expr {
+							isIndex = true
+						}
+					}
+				case *ast.CallExpr:
+					if sel, ok := z.Fun.(*ast.SelectorExpr); ok && sel.Sel.Name == "Equals" && len(z.Args) == 1 && objOf(info, z.Args[0]) == expected {
+						sameType = true
+					}
+				}
+				return true
+			})
+		}
+		if ifs.Init != nil {
+			check(ifs.Init)
+		}
+		check(ifs.Cond)
+		returnsExpr := false
+		ast.Inspect(ifs.Body, func(y ast.Node) bool {
+			if ret, ok := y.(*ast.ReturnStmt); ok && len(ret.Results) == 1 && objOf(info, ret.Results[0]) == expr {
+				returnsExpr = true
+			}
+			return true
+		})
+		if isIndex && sameType && returnsExpr {
+			good = true
+		}
+	}
+	r.Check(good, rule, fn.Name(), "an index expression of the expected optional type is not wrapped", c.pos(fn.Decl.Pos()),
+		"every expression whose type is an optional is wrapped in OptionalSome, also one that denotes an optional in memory: `let arr: [2]i32? = [1, none]; let x: i32? = arr[1]; io::Println(x == none);` prints false, and `arr[0]` read the same way is the element's address")
+}
